@@ -242,10 +242,14 @@ def check_rotation(ctx: Context, rep, rule: str) -> None:
     if pulls and lsends:
         sent = lsends[0]["args"][0] if lsends[0]["args"] else None
         # the sent value derives from the pulled task
-        pulled_names = [n["pat"]["name"] for n in body_nodes
-                        if kind(n, "Local") and kind(n.get("pat"), "PIdent")
-                        and any(x is pulls[0] for x in walk(n.get("init")))]
-        rep.ob(rule, sent is not None and norm(text(sent)) in pulled_names,
+        pulled_names = []
+        for n in body_nodes:
+            if kind(n, "Local") and any(x is pulls[0]
+                                        for x in walk(n.get("init"))):
+                pulled_names += [p["name"] for p in walk(n.get("pat"))
+                                 if kind(p, "PIdent")]
+        sent_t = norm(text(sent)) if sent is not None else ""
+        rep.ob(rule, any(sent_t in (nm, f"Some({nm})") for nm in pulled_names),
                loc=pf.loc(lsends[0]), where=pf.qual,
                construct=norm(text(lsends[0])),
                message="the task sent is the one just pulled")
